@@ -323,6 +323,13 @@ pub fn gen_client(rng: &mut Rng, id: usize) -> Vec<String> {
             if protos.is_empty() { "-".into() } else { protos.iter().map(|p| hx(p)).collect::<Vec<_>>().join(",") }
         ));
     }
+    // now and then a configuration whose read buffer is smaller than what arrives with the head
+    if rng.chance(1, 5) {
+        lines.push(format!(
+            "cfg role=client rbuf={} wbuf=0 maxw=inf maxmsg=1048576 maxframe=1048576 unmasked=0 pre=none",
+            *rng.pick(&[1usize, 7, 50, 300, 4096])
+        ));
+    }
     // the response: prefix ++ accept ++ suffix
     let status = match rng.below(10) {
         0 => "HTTP/1.1 200 OK",
